@@ -15,7 +15,7 @@ LineOK(e) ==
   /\ (~e.panic \/ Reject(l, "panic"))
   /\ (~e.err \/ Reject(l, "error"))
   /\ (e.panic \/ e.err \/
-      LET A == Norm(e.in)  Bn == Norm(e.out) IN
+      \E A \in {Norm(e.in)} : \E Bn \in {Norm(e.out)} :     \* (bound once: TLC re-evaluates LET definitions per mention)
       /\ (ShapeEq(A, Bn) \/ Reject(l, "shape"))
       /\ (RenderEq(A, Bn) \/ Reject(l, "render"))
       /\ (~ShapeEq(A, Bn) \/
